@@ -332,6 +332,8 @@ FAMILIES = {
 		("lshift-table", lambda w: w.t << w.t[0:1]), ("cell", lambda w: w.t[w.n - 1, 1]),
 		("iter-row-sums", lambda w: [r.sum() for r in w.t[_gname(w), _bname(w)]]), ("iter-row-slices", lambda w: [list(r[0:2]) for r in w.t]), ("iter-row-math", lambda w: [list(r * 2) for r in w.t[_gname(w), _bname(w)]]),
 		("two-rows-held", lambda w: (lambda a, b: (tuple(a), tuple(b)))(w.t[0], w.t[w.n - 1])), ("row-held-across-shape", lambda w: (lambda r: (w.t.shape, tuple(r)))(w.t[-1])),
+		("col-by-name", lambda w: [list(w.t[nm]) for nm in w.t.column_names() if isinstance(nm, str)]), ("col-by-name-twice", lambda w: [(list(w.t[nm]), list(w.t[nm])) for nm in w.t.column_names() if isinstance(nm, str)][:2]),
+		("sort-by-name-cells", lambda w: w.t.sort_by(_gname(w))), ("T-of-sorted", lambda w: w.t.sort_by(_bname(w)).T),
 		("row-by-name", lambda w: [w.t[0][nm] for nm in w.t.column_names() if isinstance(nm, str) and nm.isidentifier() and nm == nm.lower() and not hasattr(Row, nm)]), ("rows-after-set_index", lambda w: [tuple(r.copy()) for r in w.t]),
 	],
 	"C05": [
